@@ -273,3 +273,65 @@ func multiDB(c *common.Ctx, idx int) error {
 	c.Distinct(fmt.Sprintf("multi-db:%d", idx))
 	return nil
 }
+
+// retentionRejoin: a replica is away while the primary commits and trims its log; what the replica needs next is
+// gone, so it has to be brought up with a snapshot - and reach the primary's position while the primary is idle.
+func retentionRejoin(c *common.Ctx, idx int) error {
+	r := c.Rng.Fork()
+	wal := idx%2 == 1
+	cfg := hist.Config{PageSize: 512, AllowWAL: wal, ForceWAL: wal}
+	dir, err := os.MkdirTemp(c.OutDir, "c01t-")
+	if err != nil {
+		return err
+	}
+	defer os.RemoveAll(dir)
+	cl := cluster.New(dir, 2*time.Second)
+	s := &scenario{c: c, r: r, cl: cl, caches: map[string]*simCache{}, committed: map[posKey]*lfs.Image{}, cfg: cfg, tl: map[string]*timeline{}}
+	cl.Opts = func(name string, st *litefs.Store) {
+		cache := newSimCache()
+		s.caches[name] = cache
+		st.Invalidator = cache
+	}
+	defer cl.Close()
+	p, err := cl.Start("p", true)
+	if err != nil {
+		return err
+	}
+	if cl.WaitPrimary(5*time.Second) == nil {
+		return fmt.Errorf("no primary")
+	}
+	r1, err := cl.Start("r1", false)
+	if err != nil {
+		return err
+	}
+	h := hist.NewOn(c, r.Fork(), cfg, p.Store, p.Exits, "db", nil, 0, false)
+	s.h = h
+	if err := commitRec(h, 3+idx%3, s.record); err != nil {
+		return err
+	}
+	pp := p.Store.DB("db").Pos()
+	if !cluster.WaitPos(r1, "db", uint64(pp.TXID), uint64(pp.PostApplyChecksum), 10*time.Second) {
+		return fmt.Errorf("r1 did not catch up")
+	}
+	r1.Stop()
+	if err := commitRec(h, 2+idx%2, s.record); err != nil {
+		return err
+	}
+	if err := p.Store.DB("db").EnforceRetention(bg, time.Now().Add(time.Hour)); err != nil {
+		return fmt.Errorf("retention: %w", err)
+	}
+	pp2 := p.Store.DB("db").Pos()
+	s.logf("r1 stops at %s; the primary commits to %s and trims its log to the newest file; r1 restarts; the primary is idle", pp.String(), pp2.String())
+	if r1, err = cl.Start("r1", false); err != nil {
+		return err
+	}
+	ok := cluster.WaitPos(r1, "db", uint64(pp2.TXID), uint64(pp2.PostApplyChecksum), 6*time.Second)
+	c.Evaluations++
+	c.Distinct(fmt.Sprintf("retention-rejoin:%d:%v", idx%3, wal))
+	if !ok {
+		c.Violate("C01:no-convergence:retention", fmt.Sprintf("a replica that rejoins at %s after retention trimmed the primary's log does not reach the primary's position %s while the primary is idle (it is at %s)", pp.String(), pp2.String(), r1.Store.DB("db").Pos().String()), s.replay("no-convergence-retention"))
+		return nil
+	}
+	s.checkReplica(r1)
+	return nil
+}
